@@ -21,13 +21,16 @@ import (
 	"time"
 
 	pprofpkg "github.com/google/pprof/profile"
+	wmodel "github.com/metrico/qryn/writer/model"
 
 	"verif/mc/ev"
 	"verif/mc/wkpool"
 )
 
 type replayDoc struct {
-	Kind  string  `json:"kind"` // "profile" | "merge"
+	Kind  string  `json:"kind"`              // "profile" | "merge" | "history"
+	Hist  string  `json:"history,omitempty"` // "handover" | "retry"
+	Via   int     `json:"via,omitempty"`
 	Prof  *Prof   `json:"prof,omitempty"`
 	Vias  int     `json:"vias,omitempty"`
 	Perms bool    `json:"perms,omitempty"`
@@ -103,6 +106,49 @@ func ingest(c *checker, p *Prof, where string) (*storedProf, trie) {
 		c.count("wellformed_profile_rejected")
 		return nil, nil
 	}
+	return consume(c, p, pd, where)
+}
+
+// runHistory: state carried across requests.  "handover": A is parsed, B is parsed, and only then A's ProfileData
+// (kept exactly as handed over) is consumed; "retry": A is parsed and consumed once (the INSERT "fails"), B is parsed
+// and consumed, then the very same ProfileData of A is consumed again.  Both trees must be what they would be alone.
+func runHistory(a, b *Prof, hist string, via int) *wkpool.CaseResult {
+	c := newChecker(&replayDoc{Kind: "history", Profs: []*Prof{a, b}, Hist: hist, Via: via})
+	c.res.Key = shortHash("history:" + hist + fmt.Sprint(via) + a.key() + "&" + b.key())
+	pa, err := parse(a, via)
+	c.res.RealTraces++
+	if err != nil {
+		c.res.Outcomes = append(c.res.Outcomes, "history:first_rejected")
+		return c.res
+	}
+	snap, _ := json.Marshal(pa)
+	if hist == "retry" {
+		if _, _, errs := store(pa); errs != "" {
+			c.viol("history_process_request_failed", "first attempt: %s", errs)
+		}
+	}
+	pb, err := parse(b, via)
+	c.res.RealTraces++
+	if err != nil {
+		c.res.Outcomes = append(c.res.Outcomes, "history:second_rejected")
+		return c.res
+	}
+	consume(c, b, pb, "history "+hist+", second profile")
+	if now, _ := json.Marshal(pa); string(now) != string(snap) {
+		c.viol("handed_over_profile_changed_by_later_request", "history %s: the ProfileData handed over for the first profile changed after another profile was decoded (before %.200s… now %.200s…)", hist, snap, now)
+	}
+	consume(c, a, pa, "history "+hist+", first profile consumed after the second")
+	for i := range c.res.Viols {
+		if !strings.HasPrefix(c.res.Viols[i].Class, "handed_over") && !strings.HasPrefix(c.res.Viols[i].Class, "history_") {
+			c.res.Viols[i].Class = "history_" + c.res.Viols[i].Class
+		}
+	}
+	c.res.Outcomes = append(c.res.Outcomes, fmt.Sprintf("history:%s:via=%d:samples=%d then %d", hist, via, len(a.Samples), len(b.Samples)))
+	return c.res
+}
+
+// consume = store + checks for an already parsed profile
+func consume(c *checker, p *Prof, pd *wmodel.ProfileData, where string) (*storedProf, trie) {
 	em := emitted(pd)
 	st, types, errs := store(pd)
 	if errs != "" {
@@ -402,6 +448,10 @@ func main() {
 			return runProfile(sp.deep[i], 3, false)
 		}
 		i -= len(sp.deep)
+		if i >= sp.nPoolSeqs+len(sp.deepSeqs) {
+			h := sp.hist[i-sp.nPoolSeqs-len(sp.deepSeqs)]
+			return runHistory(h.a, h.b, h.hist, h.via)
+		}
 		if i >= sp.nPoolSeqs {
 			return runMerge(sp.deepSeqs[i-sp.nPoolSeqs], true)
 		}
@@ -436,6 +486,7 @@ func main() {
 		if f, err := os.OpenFile(os.DevNull, os.O_WRONLY, 0); err == nil {
 			os.Stdout = f // the reader prints every SQL text it runs
 		}
+		runtime.GOMAXPROCS(1) // one P: a sync.Pool hand-over between two requests is deterministic
 		wkpool.Worker(sp.total, run)
 		return
 	}
@@ -473,6 +524,8 @@ func main() {
 			res = runProfile(doc.Replay.Prof, doc.Replay.Vias, doc.Replay.Perms)
 		case "merge":
 			res = runMerge(doc.Replay.Profs, false)
+		case "history":
+			res = runHistory(doc.Replay.Profs[0], doc.Replay.Profs[1], doc.Replay.Hist, doc.Replay.Via)
 		default:
 			ev.Fatal("replay: unknown kind %q", doc.Replay.Kind)
 		}
